@@ -12,7 +12,7 @@ open Rangers.Model.Evm12 Rangers.Generated.C12
 /-- every state-relevant opcode of the model is an entry of the live jump table -/
 theorem ops_present :
     ∀ o ∈ [Op.sstore, .tstore, .log 0, .log 1, .log 2, .log 3, .log 4, .selfdestruct, .call, .callcode,
-           .delegatecall, .staticcall, .create, .create2, .authcall, .stake, .unstake, .unstakeall],
+           .delegatecall, .staticcall, .create, .create2, .authcall, .stake, .unstake, .unstakeall, .stakenum],
       (findFact o.name opFacts).isSome = true := by decide
 
 /-- the `writes` flags the frame theorems rely on -/
@@ -21,7 +21,8 @@ theorem model_write_flags :
     ∧ opWrites .create = true ∧ opWrites .create2 = true
     ∧ opWrites .tstore = false ∧ opWrites .call = false ∧ opWrites .callcode = false
     ∧ opWrites .delegatecall = false ∧ opWrites .staticcall = false ∧ opWrites .authcall = false
-    ∧ opWrites .stake = false ∧ opWrites .unstake = false ∧ opWrites .unstakeall = false := by decide
+    ∧ opWrites .stake = false ∧ opWrites .unstake = false ∧ opWrites .unstakeall = false
+    ∧ opWrites .stakenum = false := by decide
 
 /-- `opTstore` is not flagged but tests `interpreter.readOnly` itself (the model's `tstore` case does too) -/
 theorem tstore_checks_readonly :
